@@ -667,11 +667,6 @@ func (s *sess) replayEntries(b *behaviour) {
 				return
 			}
 		}
-		if st.Op == "setoffset" && st.A != prevLen {
-			if ro, _ := boundary(st.A); false && sz != ro {
-				_ = ro
-			}
-		}
 		lastSize = sz
 		prevLen = len(st.Ideal)
 		// every live entry at or after the discard mark is readable at its handle, with exact and with longer buffers
